@@ -163,4 +163,139 @@ example : ∃ D x, recurseKids [Elem.leaf "a" [] (.s "1"), .leaf "a" [] (.s "2")
     ∀ k, k ≠ "a" → D.lookup k = ([] : Dict).lookup k :=
   xml_group_roundtrip "a" [] rfl _ _ false .typeError (by simp) (by simp [Elem.tag]) (by simp [recurse]) (by simp [Val.isList]) (by simp)
 
+/-! ## Regenerated tables: covariance keys, frames, aliases, units -/
+
+/-- the 6×6 matrix of keys read by `load_cov` is symmetric and its lower triangle is, entry by entry,
+the key the writers use for `cov[i, j]`, j ≤ i — so every written value lands at both `[i, j]` and `[j, i]` -/
+theorem covRead_matches_writers :
+    (∀ i, i < 6 → ∀ j, j < 6 → (covRead[i]!)[j]! = (covRead[j]!)[i]!) ∧
+    (∀ i, i < 6 → ∀ j, j ≤ i → (covRead[i]!)[j]! = covKey i j) ∧ covKeys.length = 21 ∧ covKeys.Nodup := by
+  decide
+
+/-- the OEM KVN reader names the values of a covariance row of length `i+1` by exactly the writers' keys of row `i` -/
+theorem oemCovRows_match_writers : oemCovRowKeys = covWriteKeys := by decide
+
+/-- frame and centre: for each of the ten frames, what the writers print as CENTER_NAME / REF_FRAME is
+mapped back to the frame's own name by the readers' centre rule -/
+theorem frames_roundtrip : ∀ f ∈ frameTable, centreRule f.2.1 f.2.2 = .ok f.1 := by decide
+
+example : frameTable.length = 10 := by decide
+
+/-- covariance frame tags: own frame (absent), QSW (written RSW) and TNW all come back -/
+theorem cov_frame_alias_roundtrip :
+    ∀ f ∈ ["QSW", "TNW"], aliasIn covAliasIn.1 covAliasIn.2 (aliasOut covAliasOut f) = f := by decide
+
+/-- maneuver frame tags — full statement: `∀ f ∈ ["QSW", "TNW"], aliasIn manAliasIn.1 manAliasIn.2 (aliasOut manAliasOut f) = f`.
+False of the current code for QSW (`Witness/C13.lean: opm_qsw_man_reloads_rsw`; the readers have no alias table,
+`manAliasIn = ([], "")`).  Proved part: TNW. -/
+theorem man_frame_alias_roundtrip_partial :
+    ∀ f ∈ ["TNW"], aliasIn manAliasIn.1 manAliasIn.2 (aliasOut manAliasOut f) = f := by decide
+
+/-- every unit the writers attach is one `decode_unit` accepts -/
+theorem written_units_known :
+    (∀ k ∈ svKeys, unitNames.contains (svUnit k) = true) ∧
+    (∀ ku ∈ kepKeys ++ ommElemKeys ++ ommTleKeys, ∀ u, ku.2 = some u → unitNames.contains u = true) ∧
+    unitNames.contains "s" = true := by decide
+
+/-! ## Components, for every value of their fields -/
+
+/-- frame a maneuver comes back with: the written tag through the readers' alias, `None` when it equals the orbit's frame -/
+def manFrameBack (own : String) (m : Man) : Option String :=
+  let f := aliasIn manAliasIn.1 manAliasIn.2 (manFrameOut own m)
+  if f ≠ own then some f else none
+
+/-- the dict `xml2dict` builds for one `maneuverParameters` element -/
+def manDict (own : String) (m : Man) : Dict :=
+  (match m.comment with | some c => [("COMMENT", Val.field (.s c) [])] | none => []) ++
+  [("MAN_EPOCH_IGNITION", .field m.epoch []), ("MAN_DURATION", .field (.n m.dur) [("units", "s")]),
+   ("MAN_DELTA_MASS", .field (.s "-0.001") [("units", "kg")]), ("MAN_REF_FRAME", .field (.s (manFrameOut own m)) [])] ++
+  (["MAN_DV_1", "MAN_DV_2", "MAN_DV_3"].zip m.dv).map fun (k, v) => (k, Val.field v [("units", "km/s")])
+
+/-- **Maneuver block, XML** (epoch, duration, delta-v, comment restored; frame through the alias tables):
+for every maneuver with three delta-v components and non-empty texts, `xml2dict` turns the written
+`maneuverParameters` element into `manDict`, and the loader's maneuver code reads `manDict` back as the
+maneuver itself, its frame being `manFrameBack`. -/
+theorem man_xml_roundtrip (own : String) (dur : Int) (epoch a b c : Txt) (frame comment : Option String)
+    (he : epoch ≠ .s "") (ha : a ≠ .s "") (hb : b ≠ .s "") (hc : c ≠ .s "") (hcm : comment ≠ some "")
+    (hf : manFrameOut own ⟨dur, epoch, frame, comment, [a, b, c]⟩ ≠ "") :
+    recurse (manXml own ⟨dur, epoch, frame, comment, [a, b, c]⟩) = some (.dict (manDict own ⟨dur, epoch, frame, comment, [a, b, c]⟩)) ∧
+    loadMan own (manDict own ⟨dur, epoch, frame, comment, [a, b, c]⟩) =
+      .ok ⟨dur, epoch, manFrameBack own ⟨dur, epoch, frame, comment, [a, b, c]⟩, comment, [a, b, c]⟩ := by
+  cases comment with
+  | none =>
+    constructor
+    · simp [manXml, manDict, recurse, recurseKids, leafS, he, ha, hb, hc, hf, addChild, Elem.tag, List.lookup]
+    · simp [loadMan, manDict, textOf, getItem, Val.text, decodeUnit, strOf, unitNames, manFrameBack, List.lookup, bind, Except.bind, pure, Except.pure]
+  | some cm =>
+    have hcm' : cm ≠ "" := fun h => hcm (by rw [h])
+    constructor
+    · simp [manXml, manDict, recurse, recurseKids, leafS, he, ha, hb, hc, hf, hcm', addChild, Elem.tag, List.lookup]
+    · simp [loadMan, manDict, textOf, getItem, Val.text, decodeUnit, strOf, unitNames, manFrameBack, List.lookup, bind, Except.bind, pure, Except.pure]
+
+/-- well-formed maneuver: three non-empty delta-v texts, non-empty epoch, comment absent or non-empty -/
+def ManWf (own : String) (m : Man) : Prop :=
+  (∃ a b c, m.dv = [a, b, c] ∧ a ≠ .s "" ∧ b ≠ .s "" ∧ c ≠ .s "") ∧ m.epoch ≠ .s "" ∧ m.comment ≠ some "" ∧ manFrameOut own m ≠ ""
+
+theorem man_xml_roundtrip' (own : String) (m : Man) (h : ManWf own m) :
+    recurse (manXml own m) = some (.dict (manDict own m)) ∧
+    loadMan own (manDict own m) = .ok { m with frame := manFrameBack own m } := by
+  obtain ⟨dur, epoch, frame, comment, dv⟩ := m
+  obtain ⟨⟨a, b, c, hdv, ha, hb, hc⟩, he, hcm, hf⟩ := h
+  simp only at hdv he hcm
+  subst hdv
+  exact man_xml_roundtrip own dur epoch a b c frame comment he ha hb hc hcm hf
+
+theorem mapM_asDict (ds : List Dict) : (ds.map Val.dict).mapM asDict = (.ok ds : R (List Dict)) := by
+  induction ds with
+  | nil => rfl
+  | cons d r ih => simp [List.mapM_cons, asDict, ih, bind, Except.bind, pure, Except.pure]
+
+theorem mapM_loadMan (own : String) (ms : List Man) (hwf : ∀ m ∈ ms, ManWf own m) :
+    (ms.map (manDict own)).mapM (loadMan own) = (.ok (ms.map fun m => { m with frame := manFrameBack own m }) : R (List Man)) := by
+  induction ms with
+  | nil => rfl
+  | cons m r ih =>
+    have h1 := (man_xml_roundtrip' own m (hwf m (by simp))).2
+    have h2 := ih (fun x hx => hwf x (by simp [hx]))
+    simp [List.mapM_cons, h1, h2, bind, Except.bind, pure, Except.pure]
+
+/-- **Maneuvers, XML, every number k ≥ 1 of them, either kind, any frame tag** (clause "maneuvers (epoch,
+duration, delta-v, frame, comment)"): the `maneuverParameters` elements written for `ms` after the children
+already converted into `d` are read back by `opm._loads_xml`'s maneuver code as `ms`, each frame going through
+`manFrameBack`.  Holds for the reader as it is (`wrapOpmManeuver = true`, regenerated) for every k. -/
+theorem mans_xml_roundtrip (own : String) (ms : List Man) (hwf : ∀ m ∈ ms, ManWf own m) (hne : ms ≠ [])
+    (d : Dict) (hd : d.lookup "maneuverParameters" = none) :
+    ∃ D x, recurseKids (ms.map (manXml own)) d = some D ∧ D.lookup "maneuverParameters" = some x ∧
+      (iterGroup wrapOpmManeuver .typeError x >>= fun xs => xs.mapM asDict >>= fun raws => raws.mapM (loadMan own))
+        = .ok (ms.map fun m => { m with frame := manFrameBack own m }) := by
+  obtain ⟨D, x, h1, h2, h3, _⟩ := xml_group_roundtrip "maneuverParameters" d hd (ms.map (manXml own))
+    ((ms.map (manDict own)).map Val.dict) wrapOpmManeuver .typeError (by simpa using hne)
+    (by intro e he; simp only [List.mem_map] at he; obtain ⟨m, _, rfl⟩ := he; simp [manXml, Elem.tag])
+    (by
+      simp only [List.map_map]
+      apply List.map_congr_left
+      intro m hm
+      simp [(man_xml_roundtrip' own m (hwf m hm)).1])
+    (by intro v hv; simp only [List.mem_map] at hv; obtain ⟨_, _, rfl⟩ := hv; rfl)
+    (Or.inl (by decide))
+  refine ⟨D, x, h1, h2, ?_⟩
+  rw [h3]
+  show ((List.map Val.dict (List.map (manDict own) ms)).mapM asDict >>= fun raws => raws.mapM (loadMan own)) = _
+  rw [mapM_asDict]
+  exact mapM_loadMan own ms hwf
+
+/-- the frame tag survives exactly when the alias tables invert each other on it: own frame (`None`) and TNW
+do, for every orbit frame that is not itself an alias source; QSW does not (see `Witness/C13.lean`) -/
+theorem manFrameBack_ok (own : String) (m : Man) (hown : own ∈ frameTable.map (·.1))
+    (hf : m.frame = none ∨ m.frame = some "TNW") : manFrameBack own m = m.frame := by
+  have hmem : own ∈ ["EME2000", "MOD", "TOD", "TEME", "PEF", "ITRF", "TIRF", "CIRF", "GCRF", "G50"] := by
+    have : frameTable.map (·.1) = ["EME2000", "MOD", "TOD", "TEME", "PEF", "ITRF", "TIRF", "CIRF", "GCRF", "G50"] := by decide
+    rw [this] at hown; exact hown
+  simp only [List.mem_cons, List.not_mem_nil, or_false] at hmem
+  rcases hf with hf | hf <;> rcases hmem with h | h | h | h | h | h | h | h | h | h <;> subst h <;>
+    simp [manFrameBack, manFrameOut, hf, aliasIn, aliasOut, manAliasIn, manAliasOut, List.lookup] <;> decide
+
+example : ManWf "EME2000" ⟨0, .s "t", some "TNW", some "burn", [.s "1", .s "2", .s "3"]⟩ := by
+  refine ⟨⟨_, _, _, rfl, ?_, ?_, ?_⟩, ?_, ?_, ?_⟩ <;> decide
+
 end BeyondVerif.C13
